@@ -278,6 +278,52 @@ let traverse_cmd = function
     "(" ^ m ^ " " ^ sp ^ ")"
   | _ -> failwith "traverse args"
 
+(* ---- C16: transform ---- *)
+let rec to_xnode = function
+  | L [A "l"; i] -> XLeaf (to_nat i)
+  | L [A "L"; i; ch] -> XLst (to_nat i, to_list to_xnode ch)
+  | L [A "o"; i; c; fs; m] -> XObj (to_nat i, to_nat c, to_list to_xnode fs, to_opt to_nat m)
+  | _ -> failwith "xnode"
+let to_cb = function
+  | A "id" -> CId
+  | L [A "repl"; c; c'] -> CRepl (to_nat c, to_nat c')
+  | L [A "replmeta"; c; c'; m] -> CReplMeta (to_nat c, to_nat c', to_nat m)
+  | L [A "leaf"; c] -> CLeaf (to_nat c)
+  | L [A "list"; c] -> CList (to_nat c)
+  | L [A "field"; c] -> CField (to_nat c)
+  | L [A "child"; c] -> CChild (to_nat c)
+  | _ -> failwith "cb"
+(* identities >= base are new: printed as n *)
+let pid base i = let k = int_of_nat i in if k >= base then "n" else string_of_int k
+let rec pxnode base = function
+  | XLeaf i -> "(l " ^ pid base i ^ ")"
+  | XLst (i, l) -> "(L " ^ pid base i ^ " " ^ plist (pxnode base) l ^ ")"
+  | XObj (i, c, fs, m) -> "(o " ^ pid base i ^ " " ^ pn c ^ " " ^ plist (pxnode base) fs ^ " "
+                          ^ (match m with Some x -> pn x | None -> "none") ^ ")"
+let transform_cmd = function
+  | [base; cbs; t] ->
+    let b = to_int base in
+    let ks = to_list to_cb cbs in
+    let (r, st) = (match ks with
+      | [] -> (to_xnode t, { xnext = nat_of_int b; xlog = [] })
+      | _ -> tr (chainf ks) (to_xnode t) { xnext = nat_of_int b; xlog = [] }) in
+    "(" ^ pxnode b r ^ " " ^ plist (pid b) st.xlog ^ ")"
+  | _ -> failwith "transform args"
+
+(* ---- C14: == on parsed values ---- *)
+let rec to_pvalue = function
+  | A "none" -> Pm QNone
+  | L [A "num"; z] -> Pm (QNum (z_of_int (to_int z)))
+  | L [A "str"; s] -> Pm (QStr (to_list to_nat s))
+  | L [A "bytes"; s] -> Pm (QBytes (to_list to_nat s))
+  | L [A "L"; l] -> Ls (to_list to_pvalue l)
+  | L [A "T"; l] -> Tp (to_list to_pvalue l)
+  | L [A "O"; c; fs] -> Ob (to_nat c, to_list to_pvalue fs)
+  | _ -> failwith "pvalue"
+let pyeq_cmd = function
+  | [a; b] -> pb (py_eq (to_pvalue a) (to_pvalue b))
+  | _ -> failwith "pyeq args"
+
 (* flags of every node, preorder *)
 let rec children = function
   | Seq es | Choice es | Skip es | Longest es -> es
@@ -302,6 +348,8 @@ let dispatch = function
   | L (A "runscript" :: args) -> runscript args
   | L (A "visit" :: args) -> visit_cmd args
   | L (A "traverse" :: args) -> traverse_cmd args
+  | L (A "transform" :: args) -> transform_cmd args
+  | L (A "pyeq" :: args) -> pyeq_cmd args
   | _ -> failwith "unknown command"
 
 let () =
